@@ -59,6 +59,9 @@ def junction_set(scaffolds_rows):
 
 class C11(Check):
     pid = "C11"
+    level_text = (
+        "Bounded exhaustive over remap scopes with reverse-strand, 1-bp and same-named contigs; independent facing-end junction counter; log line and info.yaml against the files written."
+    )
     technique = (
         "exhaustive scope enumeration on the real BuildAssembly/AssemblyStats: PretextView scripts, tagged scripts and arbitrary bait "
         "multisets on inputs with reverse-strand and 1-bp contigs; independent facing-end junction counter as reference model"
